@@ -70,6 +70,7 @@ func init() {
 			bk.PCallback, bk.PFault, bk.PPanic, bk.PDur = 65, 25, 35, 80
 			bk.PFaultKind = 30
 			bk.PLocPC = 12
+			bk.PRepeat = 25 // the same function registered again (other scope / rejected duplicate)
 			bk.WInvoke, bk.WDecorate = 8, 3
 			bk.PDeep, bk.PChain = 70, 50
 			bk.MaxOps = 20
